@@ -84,7 +84,11 @@ def worldOf (entries : Array Json) : World :=
         | .ok c => .error (.entry c)
         | .error _ => match j.getObjVal? "stmt" with
                       | .ok (.obj o) => .ok (stmtOf (.obj o))
-                      | _ => .error (.entry "unavailable") }
+                      | _ => .error (.entry "unavailable")
+    jsonDumps := fun e =>
+      match find e with
+      | some j => !(flag j "json_not_serialisable")
+      | Option.none => true }
 
 def cfgOf (j : Json) : Except String Cfg := do
   let prepend : Option (List Stmt × Bool) := match j.getObjVal? "prepend" with
@@ -191,7 +195,7 @@ def ops : List (String × Handler) := [
           | .error _ => Json.null)
     let out := match run with
       | .ok (.module body) => Json.mkObj [("module", moduleJ body)]
-      | .ok (.json o) => Json.mkObj [("ids", strs o.ids), ("wrapped", Json.bool o.wrapped)]
+      | .ok (.json o) => Json.mkObj [("ids", strs o.ids), ("wrapped", Json.bool o.wrapped), ("dump_fails", Json.bool o.dumpFails)]
       | .error e => Json.mkObj [("error", Json.str (errName e))]
     return Json.mkObj [("trace", Json.arr (trace.map effJ).toArray), ("run", out), ("expected_symbols", Json.arr expected.toArray)])
 ]
